@@ -273,3 +273,79 @@ theorem rspCmd_mkReply (h : Hdr) (body : List Nat) : rspCmd (mkReply h body) = h
   simp [mkReply, rspCmd, byteAt]
 
 end PyIpmi.Ipmb
+
+namespace PyIpmi.Ipmb
+open PyIpmi PyIpmi.Spec.Wire
+
+/-! ### the response side: `IpmbHeaderRsp.encode`, `from_req_header` -/
+
+/-- the six bytes of a response header as the figure has them: requester first -/
+def rspHdrBytes (h : Hdr) : List Nat :=
+  [h.rqSa, h.netfn * 4 + h.rqLun, (256 - (h.rqSa + (h.netfn * 4 + h.rqLun)) % 256) % 256,
+   h.rsSa, h.seq * 4 + h.rsLun, h.cmd]
+
+theorem encodeRspHeader_eq (h : Hdr) (hr : h.InRange) : encodeRspHeader h = .ok (rspHdrBytes h) := by
+  obtain ⟨h1, h2, h3, h4, h5, h6, h7⟩ := hr
+  have e1 : h.netfn <<< 2 ||| h.rqLun = h.netfn * 4 + h.rqLun := shl2_or _ _ h5
+  have e2 : h.seq <<< 2 ||| h.rsLun = h.seq * 4 + h.rsLun := shl2_or _ _ h2
+  have c1 : h.netfn * 4 + h.rqLun < 256 := by omega
+  have c2 : h.seq * 4 + h.rsLun < 256 := by omega
+  have c3 : (256 - (h.rqSa + (h.netfn * 4 + h.rqLun)) % 256) % 256 < 256 := by omega
+  simp [encodeRspHeader, appendAll, Gen.IpmbFilter.rspHeaderBytes, evalTerm, eval, hget, e1, e2, h1, h4, h7,
+    c1, c2, c3, rspHdrBytes, runChecksum, Gen.IpmbFilter.cksum]
+
+/-- a response header object that carries the fields of request `h` in their roles and the network
+function `h.netfn + 1` encodes to the response frame of the figure -/
+theorem encodeIpmbMsgRsp_mkReply (h : Hdr) (body : List Nat) (hr : h.InRange) (hn : h.netfn + 1 < 64) :
+    encodeIpmbMsgRsp { h with netfn := h.netfn + 1 } body = .ok (mkReply h body) := by
+  have hr' : ({ h with netfn := h.netfn + 1 } : Hdr).InRange := by
+    obtain ⟨h1, h2, h3, h4, h5, h6, h7⟩ := hr
+    exact ⟨h1, h2, hn, h4, h5, h6, h7⟩
+  simp [encodeIpmbMsgRsp, encodeRspHeader_eq _ hr', rspHdrBytes, mkReply, pyChecksum_eq]
+
+theorem applyFromReq_intended (req : Hdr) (hn : req.netfn % 2 = 0) :
+    applyFromReq (fromReqTable .intended) req = { req with netfn := req.netfn + 1 } := by
+  simp [applyFromReq, fromReqTable, hset, eval, hget, or1_even _ hn]
+
+/-- requester and responder exchanged -/
+def crossed (req : Hdr) : Hdr :=
+  { rsSa := req.rqSa, rsLun := req.rqLun, netfn := req.netfn, rqSa := req.rsSa, rqLun := req.rsLun,
+    seq := req.seq, cmd := req.cmd }
+
+/-- as shipped the roles are crossed and the network function is the request's own -/
+theorem applyFromReq_asShipped (req : Hdr) : applyFromReq (fromReqTable .asShipped) req = crossed req := by
+  simp [applyFromReq, fromReqTable, hset, eval, hget, crossed]
+
+/-- … which `IpmbHeaderRsp.encode` (requester first) crosses back: what goes out is the REQUEST header
+again, followed by the response body -/
+theorem responseFrame_asShipped (req : Hdr) (body : List Nat) (hr : req.InRange) :
+    responseFrame (fromReqTable .asShipped) req body = .ok (frameOf req body) := by
+  have hr' : (crossed req).InRange := by
+    obtain ⟨h1, h2, h3, h4, h5, h6, h7⟩ := hr
+    exact ⟨h4, h5, h3, h1, h2, h6, h7⟩
+  rw [responseFrame, applyFromReq_asShipped, encodeIpmbMsgRsp, encodeRspHeader_eq _ hr']
+  simp [rspHdrBytes, frameOf, hdrBytes, crossed]
+
+theorem frameData_mkReply (h : Hdr) (body : List Nat) : frameData (mkReply h body) = body := by
+  simp [frameData, mkReply]
+
+/-- the requester reads from the figure's response frame exactly the fields of the request it answers
+(network function plus one) and the body -/
+theorem parseRsp_mkReply (h : Hdr) (body : List Nat) (hr : h.InRange) :
+    parseRsp (mkReply h body) = some ({ h with netfn := h.netfn + 1 }, body) := by
+  have c : 7 ≤ (mkReply h body).length ∧ hdrOk (mkReply h body) ∧ payOk (mkReply h body) :=
+    ⟨by rw [mkReply_length]; omega, mkReply_hdrOk h body, mkReply_payOk h body⟩
+  obtain ⟨h1, h2, h3, h4, h5, h6, h7⟩ := hr
+  unfold parseRsp
+  rw [if_pos c, frameData_mkReply]
+  have e1 : ((h.netfn + 1) * 4 + h.rqLun) / 4 = h.netfn + 1 := by omega
+  have e2 : ((h.netfn + 1) * 4 + h.rqLun) % 4 = h.rqLun := by omega
+  have e3 : (h.seq * 4 + h.rsLun) / 4 = h.seq := by omega
+  have e4 : (h.seq * 4 + h.rsLun) % 4 = h.rsLun := by omega
+  simp [mkReply, byteAt, e1, e2, e3, e4]
+
+/-- the request frame of the figure is the frame the request encoder is proved to produce -/
+theorem mkRequest_eq_frameOf (h : Hdr) (data : List Nat) : mkRequest h data = frameOf h data := by
+  simp [mkRequest, frameOf, hdrBytes, pyChecksum_eq]
+
+end PyIpmi.Ipmb
